@@ -30,7 +30,7 @@
 (***************************************************************************)
 EXTENDS Handshake
 
-VARIABLES phase,   \* 0..3 script, 4 = all four messages exist, 5 = a vector
+VARIABLES phase,   \* 0..3 script, 4 = all four messages exist, 45 = (situation, base, header) chosen, 5 = a vector
           vec
 hvars == <<vars, phase, vec>>
 
@@ -106,34 +106,46 @@ Script ==
   \/ phase = 2 /\ Deliver("R2", "I2", "id", "") /\ phase' = 3 /\ UNCHANGED vec
   \/ phase = 3 /\ Deliver("R1", "I1", "id", "") /\ phase' = 4 /\ UNCHANGED vec
 
-Gen ==
+\* (the Machine outcomes are passed as an operator argument: TLC evaluates an argument once, a LET value at every use)
+Emit(s, b, op, arg, h, hd, route, kinds) ==
+  /\ kinds \cap {"accepted", "ok"} = {}                                \* rejections only (an accepted message is C05's)
+  /\ \E gv \in GViaOf(s), pa \in PathsOf(s) :
+       vec' = [sit |-> s, gvia |-> gv, path |-> pa, base |-> b, op |-> op, arg |-> arg, hdr |-> h, ctr |-> hd[1],
+               idx |-> hd[2], sub |-> (h = "subtype"), route |-> route, kinds |-> kinds, allowed |-> Allowed(kinds, route),
+               \* where the tunnel the genuine message completes has to send: the peer's address, or only the relay
+               remote |-> IF gv = "direct" THEN "peer" ELSE "none"]
+
+\* one state per (situation, base message, header treatment): TLC's workers then expand them in parallel
+Fork ==
   /\ phase = 4
-  /\ \E s \in Sits : \E gv \in GViaOf(s), pa \in PathsOf(s), b \in BasesOf(s), op \in Ops, h \in Hdrs :
-     \E arg \in ArgsOf(op) :
-       LET hd    == HdrOf(s, b, h)
-           sub   == h = "subtype"
-           route == IF op = "short" THEN "drop" ELSE Route(s, hd, sub)     \* shorter than a header: never reaches the manager
-           W     == MsgOf(s, b)
-           M     == ReaderMach(s, route)
-           kinds == KindsOf(s, b, op, arg, route)
-       IN /\ h \notin {"asis", "subtype"} => hd # AsIs(s, b)                  \* the treatment changes something
-          /\ b = "garbage" => op \in GarbageOps
-          /\ OpApplies(op, arg, W, M, SlotOf(s, b))
+  /\ \E s \in Sits, b \in {"genuine", "own", "other1", "other2", "garbage"}, h \in Hdrs :
+       /\ b \in BasesOf(s)
+       /\ h \notin {"asis", "subtype"} => HdrOf(s, b, h) # AsIs(s, b)       \* the treatment changes something
+       /\ vec' = [NoVec EXCEPT !.sit = s, !.base = b, !.hdr = h]
+  /\ phase' = 45
+  /\ UNCHANGED vars
+
+Gen ==
+  /\ phase = 45
+  /\ \E op \in Ops : \E arg \in ArgsOf(op) :
+       LET s     == vec.sit
+           b     == vec.base
+           h     == vec.hdr
+           hd    == HdrOf(s, b, h)
+           route == IF op = "short" THEN "drop" ELSE Route(s, hd, h = "subtype")   \* shorter than a header: never reaches the manager
+       IN /\ b = "garbage" => op \in GarbageOps
+          /\ OpApplies(op, arg, MsgOf(s, b), ReaderMach(s, route), SlotOf(s, b))
           /\ op \in {"splice_e", "splice_p"} => arg \in {"I1", "I2", "R1", "R2"}
           \* a stage 1 the responder has already answered, unmodified behind the header: a duplicate, not a rejection
           /\ ~(s = "resp_answered" /\ b = "genuine" /\ route = "fresh" /\ op \in {"id", "hdrflip"})
-          /\ kinds \cap {"accepted", "ok"} = {}                                \* rejections only (an accepted message is C05's)
-          /\ vec' = [sit |-> s, gvia |-> gv, path |-> pa, base |-> b, op |-> op, arg |-> arg, hdr |-> h, ctr |-> hd[1],
-                     idx |-> hd[2], sub |-> sub, route |-> route, kinds |-> kinds, allowed |-> Allowed(kinds, route),
-                     \* where the tunnel the genuine message completes has to send: the peer's address, or only the relay
-                     remote |-> IF gv = "direct" THEN "peer" ELSE "none"]
+          /\ Emit(s, b, op, arg, h, hd, route, KindsOf(s, b, op, arg, route))
   /\ phase' = 5
   \* the handshake state is of no interest in a vector: keep the dump small
   /\ mach' = [m \in Honest |-> NewMach(m, vc)] /\ msgs' = [sl \in Slots |-> NoMsg]
   /\ obs' = Obs([m \in Honest |-> NewMach(m, vc)], [sl \in Slots |-> NoMsg], xr)
   /\ UNCHANGED <<adv, vc, xr, pol, chk, scn>>
 
-RNext == Script \/ Gen
+RNext == Script \/ Fork \/ Gen
 RSpec == RInit /\ [][RNext]_hvars
 
 \* every vector allows something, and "abandoned" only where the pending Machine itself was reached
